@@ -62,13 +62,18 @@ def magicPong : Nat := 0xdc69fb03
 def magicQuery : Nat := 0xb48bf97a
 def magicAnswer : Nat := 0x0fac8416
 def magicPubEd25519 : Nat := 0x4813b4c6
+/-- `tcp.authentificationNonce nonce:bytes = tcp.Message` -/
+def tlAuthNonce : List Nat := [116, 99, 112, 46, 97, 117, 116, 104, 101, 110, 116, 105, 102, 105, 99, 97, 116, 105, 111, 110, 78, 111, 110, 99, 101, 32, 110, 111, 110, 99, 101, 58, 98, 121, 116, 101, 115, 32, 61, 32, 116, 99, 112, 46, 77, 101, 115, 115, 97, 103, 101]
+def magicAuthNonce : Nat := 0xe35d4ab6
+/-- a tcp.pong is its constructor id (4) and `random_id:long` (8): exactly 12 bytes -/
+def pongSize : Nat := 12
 /-- the four bytes hashed in front of the public key to form the key id: le32(magicPubEd25519) -/
 def keyIdPrefix : List Nat := [0xc6, 0xb4, 0x13, 0x48]
 
 /-- the magic numbers ARE the checksums of their declarations (recomputed by the kernel) -/
 theorem magics_are_crc32 :
     crc32 tlPing = magicPing ∧ crc32 tlPong = magicPong ∧ crc32 tlQuery = magicQuery ∧ crc32 tlAnswer = magicAnswer ∧
-    crc32 tlPubEd25519 = magicPubEd25519 ∧
+    crc32 tlPubEd25519 = magicPubEd25519 ∧ crc32 tlAuthNonce = magicAuthNonce ∧
     keyIdPrefix = [magicPubEd25519 % 256, magicPubEd25519 / 256 % 256, magicPubEd25519 / 65536 % 256, magicPubEd25519 / 16777216] := by
   decide +kernel
 
